@@ -18,6 +18,10 @@ Each item is an ASSUMED element-wise axiom of numpy (listed in the evidence of t
   values of v (uninterpreted functions of v: length, elements, slot of a value, an occurrence of each element);
 * ``X[idx]`` of a matrix with an int index vector: the row gather (as npmodel), remembered as *gather of X by idx*;
   ``J[idx] = V`` on rank-3 arrays with pairwise distinct row indices (generated obligation) and V.shape == (len(idx), *J.shape[1:]): row scatter;
+* ``d[key]`` inside a comprehension element: the obligation ``comprehension-key-present`` instead of a KeyError path (as plug_np_c17);
+* iteration over a matrix: its rows (row s remembered as *row s of X*);  ``J[s] = M`` on a rank-3 array with M.shape == J.shape[1:];
+  ``M[None]`` of a matrix: the (1, rows, cols) array;  ``numpy.repeat(A, n, axis=0)`` of a (1, p, q) array: n copies;
+  ``a.reshape((n, -1))`` of an (n, p) matrix: the matrix itself (copy);  ``openturns.Point(v)``: the vector v;
 * a numpy array listed in the ``modifies`` of a loop: same shape, arbitrary content.
 * class hierarchy: ``gemseo.core.discipline.Discipline`` is the relative re-export (``from .discipline import Discipline``, the only relative
   import of the repository, not followed by pyvc/source.py) of ``gemseo.core.discipline.discipline.Discipline``: attribute look-ups that
@@ -28,7 +32,7 @@ from __future__ import annotations
 import z3
 
 from .npmodel import ArrObj, NumpyModel, TArr, _arr, _is_arr
-from .values import BuiltinV, ListObj, Ref, SV, TInt, Unsupported
+from .values import BuiltinV, DictObj, ListObj, Ref, SV, TInt, Unsupported
 
 _NP = NumpyModel()
 F2 = TArr("f", 2)
@@ -101,6 +105,16 @@ def _is_ellipsis(k):
     return isinstance(k, BuiltinV) and k.name == "Ellipsis"
 
 
+# qualified name -> summary(ex, args, kwargs, lineno) -> value: the (verified) contract of a small function applied inside a comprehension
+# element, where no forking is possible: its exceptional outcome becomes an obligation, its result is the term of its postcondition
+NOFORK_SUMMARIES: dict = {}
+
+# record type name -> model(ex, fv, args, kwargs, lineno): calling a value of an abstract record type (e.g. an OpenTURNS function object)
+CALLABLE_RECORDS: dict = {}
+
+# TFun name -> model(ex, fv, args, kwargs, lineno): calls of an abstract callable whose arguments are not all embeddable (e.g. an object)
+FUNV_MODELS: dict = {}
+
 REEXPORT = {"gemseo.core.discipline.Discipline": "gemseo.core.discipline.discipline.Discipline"}
 
 
@@ -124,8 +138,47 @@ class C18Models:
                 return ClassV(nq)
         return NotImplemented
 
+    def value_attr(self, ex, obj, attr, lineno):
+        from .values import FunV
+
+        if _on(ex) and isinstance(obj, FunV) and attr == "__name__" and getattr(ex.contract, "closure_names", {}).get(obj.ty.fname) is not None:
+            return ex.contract.closure_names[obj.ty.fname]  # the name of the decorated function (a contract variant per name)
+        return NotImplemented
+
+    def call_funv(self, ex, fv, args, kwargs, lineno):
+        if _on(ex) and fv.ty.fname in FUNV_MODELS:
+            return FUNV_MODELS[fv.ty.fname](ex, fv, args, kwargs, lineno)
+        return NotImplemented
+
+    def call_opaque(self, ex, fv, args, kwargs, lineno):
+        if _on(ex) and isinstance(fv, SV) and fv.ty.name in CALLABLE_RECORDS:
+            return CALLABLE_RECORDS[fv.ty.name](ex, fv, args, kwargs, lineno)
+        return NotImplemented
+
+    def call_repo_model(self, ex, fi, args, kwargs, lineno):
+        if _on(ex) and ex.no_fork and fi.qualname in NOFORK_SUMMARIES:
+            return NOFORK_SUMMARIES[fi.qualname](ex, args, kwargs, lineno)
+        return NotImplemented
+
+    def to_iter(self, ex, v, lineno):
+        if not (_on(ex) and _is_arr(ex, v) and _arr(ex, v).rank == 2):
+            return NotImplemented
+        from .engine import IterV
+
+        A = _arr(ex, v)
+        t = arr2_term(A) if A.kind == "f" else None
+
+        def row(s):
+            r = _NP.new(ex, A.kind, (A.shape[1],), _NP.lam(1, lambda j: A.at(s, j)))
+            ex.st.ghost.setdefault("c18_row", {})[r.id] = (t, s, A)
+            return r
+
+        return IterV(A.shape[0], row)
+
     # ------------------------------------------------------------------ functions
     def call_builtin(self, ex, name, args, kwargs, lineno, node=None):
+        if _on(ex) and name == "openturns.Point" and len(args) == 1 and not kwargs and _is_arr(ex, args[0]) and _arr(ex, args[0]).rank == 1:
+            return args[0]
         if not _on(ex) or not name.startswith("numpy."):
             return NotImplemented
         fn = name[6:]
@@ -166,6 +219,18 @@ class C18Models:
                 ex.st.assume(f)
             ex.assumed.add("numpy.unique(v): the distinct values of v in increasing order (uninterpreted length / elements / slot / occurrence functions of v)")
             return _NP.new(ex, "i", (u_len(t),), _NP.lam(1, lambda j: u_el(t, j)))
+        if fn == "repeat" and len(args) == 2 and kwargs.get("axis") == 0 and set(kwargs) == {"axis"} and _is_arr(ex, args[0]) and _arr(ex, args[0]).rank == 3 \
+                and ex.num(args[1]) is not None and ex.num(args[1])[1] == TInt:
+            from .engine import PyRaise
+
+            A = _arr(ex, args[0])
+            n = ex.num(args[1])[0]
+            if not ex.st.decide(n >= 0):
+                raise PyRaise("ValueError", lineno)
+            if not ex.st.decide(A.shape[0] == 1):
+                raise Unsupported("numpy.repeat along axis 0 of an array with several leading entries")
+            ex.assumed.add("numpy.repeat(A, n, axis=0) of a (1, p, q) array: R[s, a, b] = A[0, a, b], shape (n, p, q)")
+            return _NP.new(ex, A.kind, (n, A.shape[1], A.shape[2]), _NP.lam(3, lambda s_, a, b: A.at(z3.IntVal(0), a, b)))
         if fn == "atleast_2d" and len(args) == 1 and not kwargs and _is_arr(ex, args[0]):
             A = _arr(ex, args[0])
             if A.rank >= 2:
@@ -198,6 +263,11 @@ class C18Models:
             return NotImplemented
         fn = name[3:]
         A = _arr(ex, recv)
+        if fn == "reshape" and A.rank == 2 and len(args) == 1 and isinstance(args[0], tuple) and len(args[0]) == 2 and args[0][1] == -1 and isinstance(args[0][1], int) \
+                and ex.num(args[0][0]) is not None:
+            if not _NP.same(ex, ex.num(args[0][0])[0], A.shape[0], lineno):
+                raise Unsupported("reshape((n, -1)) of a matrix whose first dimension is not n")
+            return _NP.new(ex, A.kind, A.shape, A.elems)
         if fn in COLFN and A.rank == 2 and A.kind == "f" and len(args) == 1 and not kwargs and args[0] == 0 and isinstance(args[0], int):
             from .engine import PyRaise
 
@@ -223,6 +293,15 @@ class C18Models:
         if not _on(ex):
             return NotImplemented
         st = ex.st
+        if ex.no_fork and isinstance(cont, Ref) and isinstance(st.heap.get(cont.id), DictObj) and not st.heap[cont.id].is_empty_literal:
+            # d[key] inside a comprehension element (no forking possible there): when the membership is not decided by the quantifier-free
+            # facts, the obligation `comprehension-key-present` is generated instead (a KeyError inside the comprehension is a failed obligation)
+            o = st.heap[cont.id]
+            kt = o.k.embed(st, key)
+            m = z3.simplify(o.member[kt])
+            if not z3.is_true(m) and st.solver.check(z3.Not(m)) != z3.unsat:
+                ex.check(m, "safety", "comprehension-key-present", lineno, aux=True)
+            return o.v.project(st, o.vals[kt], (cont, kt, "dict"))
         if isinstance(cont, Ref) and isinstance(st.heap.get(cont.id), ListObj) and isinstance(key, tuple) and len(key) == 4 and key[0] == "slice" \
                 and key[1] is None and key[2] is None and key[3] == -1 and isinstance(key[3], int):
             o = st.heap[cont.id]
@@ -234,6 +313,15 @@ class C18Models:
             new = ListObj(o.t, o.n, rev)
             new.ty = o.ty
             return st.alloc(new)
+        if _is_arr(ex, cont) and _arr(ex, cont).rank == 2 and _arr(ex, cont).kind == "f" and not isinstance(key, bool) and ex.num(key) is not None and ex.num(key)[1] == TInt:
+            A = _arr(ex, cont)
+            r = _NP.getitem(ex, cont, key, lineno)  # row X[s] (IndexError path as npmodel), remembered as row s of X
+            n0, kt = A.shape[0], ex.num(key)[0]
+            st.ghost.setdefault("c18_row", {})[r.id] = (arr2_term(A), z3.simplify(z3.If(kt < 0, kt + n0, kt)), A)
+            return r
+        if _is_arr(ex, cont) and key is None and _arr(ex, cont).rank == 2:
+            A = _arr(ex, cont)
+            return _NP.new(ex, A.kind, (z3.IntVal(1), A.shape[0], A.shape[1]), _NP.lam(3, lambda z, a, b: A.at(a, b)))
         if _is_arr(ex, cont) and _is_arr(ex, key) and _arr(ex, cont).rank == 2 and _arr(ex, key).rank == 1 and _arr(ex, key).kind == "i":
             A, K = _arr(ex, cont), _arr(ex, key)
             r = _NP.getitem(ex, cont, key, lineno)
@@ -253,6 +341,18 @@ class C18Models:
         return NotImplemented
 
     def setitem(self, ex, cont, key, v, lineno):
+        if _on(ex) and _is_arr(ex, cont) and _arr(ex, cont).rank == 3 and _is_arr(ex, v) and ex.num(key) is not None and ex.num(key)[1] == TInt:
+            # J[s] = M: numpy broadcasts M to J.shape[1:]; only the equal-shape case is modelled
+            A, V = _arr(ex, cont), _arr(ex, v)
+            if V.rank != 2:
+                raise Unsupported("J[s] = M with a value that is not a matrix")
+            if not all(_NP.same(ex, a, b, lineno) for a, b in zip(V.shape, A.shape[1:])):
+                from .engine import PyRaise
+
+                if ex.st.decide(z3.Or(*[z3.And(a != b, a != 1) for a, b in zip(V.shape, A.shape[1:])])):
+                    raise PyRaise("ValueError", lineno)  # could not broadcast input array
+                raise Unsupported("J[s] = M with broadcasting of M")
+            return _NP.setitem(ex, cont, key, v, lineno)
         if not (_on(ex) and _is_arr(ex, cont) and _arr(ex, cont).rank == 3 and _is_arr(ex, key) and _is_arr(ex, v)):
             return NotImplemented
         from .engine import PyRaise
